@@ -330,7 +330,9 @@ pub async fn drain(world: &Arc<World>, c: usize) {
                 break;
             }
         }
-        tokio::time::sleep(Duration::from_secs(601)).await;
+        // longer than any ack deadline (and any extension, capped at 600 s) in this history
+        let longest = world.max_ack_secs.load(std::sync::atomic::Ordering::SeqCst).max(600);
+        tokio::time::sleep(Duration::from_secs(longest + 1)).await;
     }
     world.ev("mark", json!({"name": "drained"}));
 }
